@@ -19,7 +19,7 @@ ASSUMPTIONS = [
     "Unicode text = sequences of scalar values (no lone surrogates)",
     "a watchdog firing (30 s per tree) is reported as inconclusive, never as a violation",
 ]
-REQUIRED = ["vocabulary_sweep_nodes", "vocabulary_sweep_trees", "typed_table_values", "trees_validated_again_after_in_place_edits", "first_use_probes", "repeatability_checks", "trees_valid", "trees_invalid", "tree_calls", "node_calls", "config_fault_cases", "depth_ge_50", "fanout_ge_30"]
+REQUIRED = ["placeholder_sweep_nodes", "unmodelled_sweep_trees", "vocabulary_sweep_nodes", "vocabulary_sweep_trees", "typed_table_values", "trees_validated_again_after_in_place_edits", "first_use_probes", "repeatability_checks", "trees_valid", "trees_invalid", "tree_calls", "node_calls", "config_fault_cases", "depth_ge_50", "fanout_ge_30"]
 EXHAUSTIVE = {"quick": False, "thorough": False}
 
 
@@ -254,6 +254,39 @@ def vocabulary_sweep(ctx, gen):
             emlkit.discard(t)
 
 
+def placeholder_and_unmodelled_sweep(ctx):
+    """Every element the library knows holding, one after the other, every placeholder a form or a script leaves in a value (several of
+    them mean something to Python: codec names, constants, format fields) and every content word of the domain; and every EML element name
+    the library has no rule for - alone, below a dataset, and with children of its own: validation comes back, in both modes."""
+    from vlib import domain
+    words = list(dict.fromkeys(domain.PLACEHOLDER_WORDS + domain.CONTENT_WORDS))
+    for e in mrule.node_names():
+        for w in words:
+            t = Node(e, content=w)
+            call_both(ctx, mvalidate.node, f"validate.node(<{e}> with content {w!r})", t,
+                      lambda t=t: {"tree": snapshot.to_plain(t), "origin": "placeholder sweep", "node_only": True})
+            ctx.evaluated(2)
+            ctx.count("placeholder_sweep_nodes")
+            emlkit.discard(t)
+    for nm in treegen.unmodelled_eml_names() + [x for x in treegen.FOREIGN_NAMES]:
+        for shape in range(4):
+            x = Node(nm, content=None if shape % 2 else "x")
+            if shape >= 2:
+                x.add_child(Node("entityName", content="below"))
+                x.add_attribute("id", "x.1")
+            t = x
+            if shape in (1, 3):
+                t = Node("dataset")
+                t.add_child(Node("title", content="t"))
+                t.add_child(x)
+            call_both(ctx, mvalidate.node, f"validate.node(<{nm}>)", x,
+                      lambda x=x: {"tree": snapshot.to_plain(x), "origin": "unmodelled sweep", "node_only": True})
+            ctx.evaluated(2)
+            judge_tree(ctx, t, f"unmodelled sweep: <{nm}>, shape {shape}")
+            ctx.count("unmodelled_sweep_trees")
+            emlkit.discard(t)
+
+
 def first_use_probes(ctx):
     """At the very start of the process, per rule: a node that is invalid in three ways (missing required attributes, wrong
     content, a disallowed child) is validated three times in each mode, alternating; every repetition must give the same verdict
@@ -301,6 +334,7 @@ def run(ctx, params):
         typed_table_sweep(ctx)
         if params.get("salt", 0) == 0:
             vocabulary_sweep(ctx, gen)
+            placeholder_and_unmodelled_sweep(ctx)
         rng = ctx.rng
         for label, t in anytrees.allowed_unknown_cases(gen):
             ff, errs = judge_tree(ctx, t, "allowed-but-unknown child " + label)
